@@ -6,6 +6,7 @@ import (
 	"context"
 	"math/big"
 
+	"github.com/keep-network/keep-core/pkg/chain"
 	"github.com/keep-network/keep-core/pkg/net"
 	"github.com/keep-network/keep-core/pkg/protocol/group"
 	"github.com/keep-network/keep-core/pkg/tecdsa"
@@ -101,3 +102,118 @@ func VerifC35NewDoneMessage(
 		endBlock:      endBlock,
 	}
 }
+
+// VerifC35LoopCallbacks are the scripted collaborators of a signing retry
+// loop that runs with the REAL signingDoneCheck.
+type VerifC35LoopCallbacks struct {
+	GetCurrentBlock func() (uint64, error)
+	WaitForBlock    func(ctx context.Context, block uint64) error
+	Announce        func(ctx context.Context, memberIndex group.MemberIndex, sessionID string) ([]group.MemberIndex, error)
+	// Attempt stands for signingAttemptFn.
+	Attempt func(number uint, startBlock uint64, timeoutBlock uint64, excludedMembersIndexes []group.MemberIndex) (*tecdsa.Signature, uint64, error)
+	// AfterListen / AfterSignalDone are called right after the real
+	// signingDoneCheck.listen / signalDone returned.
+	AfterListen     func(attemptNumber uint64, attemptTimeoutBlock uint64, attemptMembersIndexes []group.MemberIndex)
+	AfterSignalDone func(attemptNumber uint64)
+}
+
+type verifC35Announcer struct{ cb *VerifC35LoopCallbacks }
+
+func (a *verifC35Announcer) Announce(
+	ctx context.Context,
+	memberIndex group.MemberIndex,
+	sessionID string,
+) ([]group.MemberIndex, error) {
+	return a.cb.Announce(ctx, memberIndex, sessionID)
+}
+
+// verifC35TappedDoneCheck delegates to the real signingDoneCheck.
+type verifC35TappedDoneCheck struct {
+	real *signingDoneCheck
+	cb   *VerifC35LoopCallbacks
+}
+
+func (d *verifC35TappedDoneCheck) listen(
+	ctx context.Context,
+	message *big.Int,
+	attemptNumber uint64,
+	attemptTimeoutBlock uint64,
+	attemptMembersIndexes []group.MemberIndex,
+) {
+	d.real.listen(ctx, message, attemptNumber, attemptTimeoutBlock, attemptMembersIndexes)
+	d.cb.AfterListen(attemptNumber, attemptTimeoutBlock, attemptMembersIndexes)
+}
+
+func (d *verifC35TappedDoneCheck) signalDone(
+	ctx context.Context,
+	memberIndex group.MemberIndex,
+	message *big.Int,
+	attemptNumber uint64,
+	result *signing.Result,
+	endBlock uint64,
+) error {
+	err := d.real.signalDone(ctx, memberIndex, message, attemptNumber, result, endBlock)
+	d.cb.AfterSignalDone(attemptNumber)
+	return err
+}
+
+func (d *verifC35TappedDoneCheck) waitUntilAllDone(ctx context.Context) (*signing.Result, uint64, error) {
+	return d.real.waitUntilAllDone(ctx)
+}
+
+// VerifC35LoopResult re-exports signingRetryLoopResult.
+type VerifC35LoopResult struct {
+	Signature           *tecdsa.Signature
+	LatestEndBlock      uint64
+	AttemptTimeoutBlock uint64
+	ActiveMembers       []group.MemberIndex
+	InactiveMembers     []group.MemberIndex
+}
+
+// VerifC35RunSigningLoop runs newSigningRetryLoop(...).start with the given
+// (real) done check and scripted collaborators.
+func VerifC35RunSigningLoop(
+	ctx context.Context,
+	message *big.Int,
+	initialStartBlock uint64,
+	memberIndex group.MemberIndex,
+	operators chain.Addresses,
+	groupParameters *GroupParameters,
+	doneCheck *VerifC35DoneCheck,
+	cb *VerifC35LoopCallbacks,
+) (*VerifC35LoopResult, error) {
+	srl := newSigningRetryLoop(
+		logger, message, initialStartBlock, memberIndex, operators,
+		groupParameters, &verifC35Announcer{cb},
+		&verifC35TappedDoneCheck{real: doneCheck.c, cb: cb},
+	)
+	res, err := srl.start(
+		ctx,
+		cb.WaitForBlock,
+		cb.GetCurrentBlock,
+		func(p *signingAttemptParams) (*signing.Result, uint64, error) {
+			sig, endBlock, err := cb.Attempt(p.number, p.startBlock, p.timeoutBlock, p.excludedMembersIndexes)
+			if err != nil {
+				return nil, 0, err
+			}
+			return &signing.Result{Signature: sig}, endBlock, nil
+		},
+	)
+	if err != nil {
+		return nil, err
+	}
+	return &VerifC35LoopResult{
+		Signature:           res.result.Signature,
+		LatestEndBlock:      res.latestEndBlock,
+		AttemptTimeoutBlock: res.attemptTimeoutBlock,
+		ActiveMembers:       res.activityReport.activeMembers,
+		InactiveMembers:     res.activityReport.inactiveMembers,
+	}, nil
+}
+
+const (
+	VerifC35AnnouncementDelayBlocks  = signingAttemptAnnouncementDelayBlocks
+	VerifC35AnnouncementActiveBlocks = signingAttemptAnnouncementActiveBlocks
+	VerifC35MaximumProtocolBlocks    = signingAttemptMaximumProtocolBlocks
+	VerifC35CoolDownBlocks           = signingAttemptCoolDownBlocks
+)
